@@ -116,6 +116,7 @@ type FuncC struct {
 	Kind      string // func | extern | trusted
 	Req       []Clause
 	Ens       []Clause
+	EnsAssumed []Clause // postconditions assumed at call sites but not checked against the body (trusted clauses)
 	Mod       []Target
 	HasMod    bool
 	Dec       []Clause
@@ -435,7 +436,7 @@ func parseExprString(s string) (e Expr, err error) {
 // ---------- file-level parser ----------
 
 var itemKeywords = map[string]bool{"uf": true, "pure": true, "func": true, "extern": true, "trusted": true, "lemma": true, "ghost": true}
-var clauseKeywords = map[string]bool{"entry": true, "param": true, "assume": true, "show": true, "exit": true, "uses": true, "spec": true, "cut": true, "assert": true, "arith": true, "requires": true, "ensures": true, "modifies": true, "decreases": true, "split": true,
+var clauseKeywords = map[string]bool{"assumes": true, "entry": true, "param": true, "assume": true, "show": true, "exit": true, "uses": true, "spec": true, "cut": true, "assert": true, "arith": true, "requires": true, "ensures": true, "modifies": true, "decreases": true, "split": true,
 	"loop": true, "invariant": true, "backedge": true, "iteration": true, "bounded": true, "panics": true}
 
 // readContractLines returns the logical lines (keyword + text) of all //@ lines
@@ -856,6 +857,9 @@ func ParseContracts(paths []string) (*Contracts, error) {
 						curLoop = nil
 					case "ensures":
 						cur.Ens = append(cur.Ens, c)
+						curLoop = nil
+					case "assumes":
+						cur.EnsAssumed = append(cur.EnsAssumed, c)
 						curLoop = nil
 					case "decreases":
 						if curLoop != nil {
